@@ -1165,7 +1165,13 @@ func (ctx *internalContext) Dispose() {
 	// Only dispose once
 	ctx.mutex.Lock()
 	if ctx.didDispose {
+		// Another call is disposing this context (or already has). That call may
+		// still be waiting for the running build, so wait for it here as well.
+		build := ctx.activeBuild
 		ctx.mutex.Unlock()
+		if build != nil {
+			build.waitGroup.Wait()
+		}
 		return
 	}
 	ctx.didDispose = true
